@@ -284,6 +284,52 @@ func runReal(c *core.Ctx, B int) {
 			}
 		}
 	}
+	runFar(c, B)
+}
+
+// runFar: fractional and fine resolutions, and blocks far from the origin (the block key and the
+// 3-decimal vertex key are computed from absolute coordinates), for the first four shapes.
+func runFar(c *core.Ctx, B int) {
+	sh := shapes100(false)
+	if len(sh) > 4 {
+		sh = sh[:4]
+	}
+	cp := []float64{0.5, 2.5, 7}
+	pl := []placeT{
+		{"interior", [3]float64{0.5, 0.5, 0.5}},
+		{"+x face", [3]float64{1, 0.5, 0.5}},
+		{"far +1000 blocks, +y face", [3]float64{1000.5, 1, 0.5}},
+		{"far -1000 blocks, all axes, -z face", [3]float64{-1000.5, -999.5, -1000}},
+		{"far +30000 blocks in z, 0 x face", [3]float64{0, 0.5, 30000.5}},
+	}
+	var pn []string
+	for _, p := range pl {
+		pn = append(pn, p.name)
+	}
+	c.Bound(bname(B, "far.cubes_per_unit"), cp)
+	c.Bound(bname(B, "far.placements"), pn)
+	for _, s := range sh {
+		for _, cpu := range append(cp, 1) {
+			for pi, p := range pl {
+				if cpu == 1 && pi < 2 {
+					continue // resolution 1 near the origin is the main scope
+				}
+				for _, cut := range cutoffs {
+					if !c.Next() {
+						continue
+					}
+					if expired(c) {
+						return
+					}
+					var ctr [3]float64
+					for a := 0; a < 3; a++ {
+						ctr[a] = p.k[a]*float64(B)/cpu + subOffsets[0][a]
+					}
+					one(c, Case{Via: s.via, Parts: s.at(ctr), Strength: s.strength, Margin: s.margin, CPU: cpu, Cutoff: cut, Entry: "canvas", Block: B, Place: p.name}, "block100-far/"+s.via)
+				}
+			}
+		}
+	}
 }
 
 // runScaled: every integer and half-integer lattice offset of the shape's centre over the blocks
